@@ -598,6 +598,8 @@ class Share(object):
 
     def insert(self, index, key, item):
         """Insert key:item at index."""
+        if not REO_IdentPub.fullmatch(key): #same field name rule as Data.__setattr__
+            raise KeyError("%s invalid key '%s'" % (self.__class__.__name__, key))
         self._data.__dict__.insert(index, key, item)
         #don't update stamp here since used by change
 
